@@ -172,6 +172,7 @@ def check_property(pid, tier, seed, procs, relock=False):
                     pid, os.path.relpath(path, ROOT), o["name"], "" if confirmed else " no-failing-input-found"))
 
     bounded_summ = []
+    seen_fp = set()
     evaluations = nontrivial = 0
     exhaustive_all = True
     for r in bres:
@@ -185,8 +186,15 @@ def check_property(pid, tier, seed, procs, relock=False):
         for s in r.get("samples", [])[:3]:
             if len(samples) < 14:
                 samples.append(dict(bounded=r.get("name"), case=s))
+        per_fp = {}
+        for f in r.get("failures", []):
+            per_fp[f.get("fingerprint", "")] = per_fp.get(f.get("fingerprint", ""), 0) + 1
+        seen_fp_here = set()
         for f in r.get("failures", []):
             fp = f.get("fingerprint", "")
+            if fp in seen_fp or fp in seen_fp_here:
+                continue        # one VIOLATION line per failing clause (fingerprint); all instances are in the evidence
+            seen_fp_here.add(fp)
             kf = match_known(pid, fp, known)
             if kf:
                 msg = "KNOWN-FINDING: property=%s %s" % (pid, kf["what_fails"])
@@ -195,7 +203,8 @@ def check_property(pid, tier, seed, procs, relock=False):
                 continue
             path = os.path.join(REPLAY, "%s-%s-%d.json" % (pid, r.get("name", "bounded").replace("/", "_"), len(violations)))
             json.dump(dict(property=pid, kind="bounded", harness=r.get("name"), failure=f), open(path, "w"), indent=1, default=str)
-            violations.append("VIOLATION property=%s replay=%s %s" % (pid, os.path.relpath(path, ROOT), f.get("what", "")[:200]))
+            seen_fp.add(fp)
+            violations.append("VIOLATION property=%s replay=%s clause=[%s] first-instance: %s" % (pid, os.path.relpath(path, ROOT), fp, f.get("what", "")[:160]))
         for u in r.get("undecided", []):
             undecided.append(dict(obligation="%s:%s" % (r.get("name"), u.get("case", "")), reason=u.get("reason", "")))
 
